@@ -11,7 +11,7 @@ for f in sorted(os.listdir(d)):
     sid = f[:-4]
     own = sid.split("-")[0]
     by = {}
-    for ln in open(os.path.join(d, f)):
+    for ln in open(os.path.join(d, f), errors="replace"):
         m = re.match(r'(C\d+) VIOLATION rule=(\S+) key="((?:[^"\\]|\\.)*)"', ln)
         if not m:
             continue
